@@ -782,7 +782,18 @@ func (g *Gen) famAol() {
 				if fp != "" && fp != w && r.Chance(0.3) {
 					spec.Modes = []SigMode{ModeDirect, ModeAux}
 				}
+				twice := r.Chance(0.1)
+				if twice && r.Chance(0.5) {
+					// the same reading reported twice: two appends with identical writer, key and value are two records
+					spec.Msgs = append(spec.Msgs, spec.Msgs[0])
+					twice = false
+				}
 				g.emit(spec)
+				if twice {
+					again := *spec
+					again.Hold = 0
+					g.emit(&again)
+				}
 			}
 		}
 	}
@@ -1116,7 +1127,19 @@ func (g *Gen) famDidAdv() {
 	upd := func(p *ProofSpec, doc *DocSpec) {
 		g.tx(MsgSpec{T: "did.Update", F: map[string]string{"did": did, "from": from}, Doc: doc, Proof: p})
 	}
-	switch r.Intn(26) {
+	switch r.Intn(28) {
+	case 26, 27: // two methods whose ids end alike after a '#': "<did>#backup#keyK" (another key, no authentication method,
+		// listed first) and "<did>#keyK" (the authentication key). Whoever resolves ids by their last segment confuses them.
+		shadow := VMSpec{Id: did + "#backup#key" + fmt.Sprint(k), Type: "EcdsaSecp256k1VerificationKey2019", Controller: did, Key: other}
+		real := VMSpec{Id: did + "#key" + fmt.Sprint(k), Type: "EcdsaSecp256k1VerificationKey2019", Controller: did, Key: k}
+		doc := &DocSpec{Id: did, VMs: []VMSpec{shadow, real}, Auth: []RelSpec{{Ref: real.Id}}, Assertion: []RelSpec{{Ref: shadow.Id}}}
+		id := g.tx(MsgSpec{T: "did.Update", F: map[string]string{"did": did, "from": from}, Doc: doc, Proof: &ProofSpec{Key: k, MethodID: mid, Seq: "cur"}})
+		g.didTx = append(g.didTx, didRef{id, did})
+		// the shadow key names the real method, then its own; then the real key acts
+		g.tx(MsgSpec{T: "did.Update", F: map[string]string{"did": did, "from": from}, Doc: g.didDoc(did, []int{other}, 0), Proof: &ProofSpec{Key: other, MethodID: real.Id, Seq: "cur"}})
+		g.tx(MsgSpec{T: "did.Deactivate", F: map[string]string{"did": did, "from": from}, Proof: &ProofSpec{Key: other, MethodID: shadow.Id, Seq: "cur"}})
+		id = g.tx(MsgSpec{T: "did.Update", F: map[string]string{"did": did, "from": from}, Doc: doc, Proof: &ProofSpec{Key: k, MethodID: real.Id, Seq: "cur"}})
+		g.didTx = append(g.didTx, didRef{id, did})
 	case 24, 25: // one key held for two subjects by a third party: DIDs A and B both list it under authentication, controller C.
 		// A is deactivated with it; the observed proof, and a proof made over the controller's id, are then presented for B
 		ia, ib := (k+1)%NumDidKeys, (k+2)%NumDidKeys
